@@ -227,6 +227,13 @@ impl Config {
                 g.state.version = self.version();
                 g
             }
+            5 | 6 => {
+                // built for another protocol, retargeted through the public field before first use
+                let other = (self.proto as usize + if self.order & 7 == 5 { 3 } else { 4 }) % 6;
+                let mut g = Generator::new(Version::try_from(other).expect("proto"));
+                g.state.version = self.version();
+                g
+            }
             _ => Generator::new(self.version()),
         }
     }
@@ -234,7 +241,7 @@ impl Config {
     pub fn build(&self) -> Generator {
         let mk = |m: &Mk| m.kind().create(self.mutator_flag());
         let mut g = match self.order & 7 {
-            1 | 4 => {
+            1 | 4 | 6 => {
                 // flags first, single-item setters, range through the two separate methods
                 let mut g = self
                     .construct()
@@ -454,6 +461,33 @@ pub fn gen_once(g: &mut Generator, entropy: &Entropy) -> Outcome {
     }
 }
 
+/// fuzzer input (and its opcode count) that makes a plain generator of protocol `proto` keep
+/// 30 000 MARKs pending (kind 0) or store 30 000 memo entries (kind 1); steered once per process
+pub fn giant_input(proto: u8, kind: usize) -> &'static (Vec<u8>, usize) {
+    static GIANT: std::sync::OnceLock<Vec<(Vec<u8>, usize)>> = std::sync::OnceLock::new();
+    let all = GIANT.get_or_init(|| {
+        let mut v = Vec::new();
+        for p in 0..6u8 {
+            let base = Config::default_for(p, Entropy::Bytes(vec![]));
+            let memo_op = match p {
+                0 => b'p',
+                1..=3 => b'r',
+                _ => 0x94,
+            };
+            for (x, y) in [(b'(', b'N'), (memo_op, b'N')] {
+                let st = crate::workload::steer_long(&base, 30_000, false, 48, crate::workload::greedy_policy(x, y));
+                let bytes = match st.cfg.entropy {
+                    Entropy::Bytes(b) => b,
+                    _ => Vec::new(),
+                };
+                v.push((bytes, 30_000));
+            }
+        }
+        v
+    });
+    &all[(proto as usize % 6) * 2 + kind % 2]
+}
+
 /// run one fresh-generator case; `trace` = Some(cfg) records the hook event log
 pub fn run_case(cfg: &Config, trace: Option<verif::Config>) -> CaseResult {
     let mut g = cfg.build();
@@ -469,6 +503,26 @@ pub fn run_case(cfg: &Config, trace: Option<verif::Config>) -> CaseResult {
         let big = w % 16 == 0;
         let huge = w % 64 == 0;
         let style = (w >> 6) % 5;
+        if w % 32 == 1 {
+            // ... and one in 32 is preceded by a giant one: 30 000 MARKs pending at once, or 30 000
+            // memo entries (tables far beyond any size-based threshold, output of 60-200 KB). The
+            // input was steered on a plain generator, so the mutators and opt-in flags are set
+            // aside through the public fields for that call and put back afterwards.
+            let (inp, steps) = giant_input(cfg.proto, ((w >> 5) % 2) as usize);
+            let muts = std::mem::take(&mut g.mutators);
+            let (u0, r0) = (g.unsafe_mutations, g.mutation_rate);
+            g.unsafe_mutations = false;
+            g.allow_ext_opcodes = false;
+            g.allow_buffer_opcodes = false;
+            g.min_opcodes = *steps;
+            g.max_opcodes = *steps;
+            let _ = gen_once(&mut g, &Entropy::Bytes(inp.clone()));
+            g.mutators = muts;
+            g.unsafe_mutations = u0;
+            g.mutation_rate = r0;
+            g.allow_ext_opcodes = e0;
+            g.allow_buffer_opcodes = b0;
+        }
         g.min_opcodes = if huge { 9000 } else if big { 2500 } else { 150 };
         g.max_opcodes = if huge { 9500 } else if big { 3000 } else { 400 };
         g.seed = Some(w);
@@ -486,9 +540,15 @@ pub fn run_case(cfg: &Config, trace: Option<verif::Config>) -> CaseResult {
         g.min_opcodes = m0;
         g.max_opcodes = m1;
         g.seed = s0;
-        g.state.version = v0;
-        g.allow_ext_opcodes = e0;
-        g.allow_buffer_opcodes = b0;
+        // only what this warm-up itself wrote is written back (writing the protocol back
+        // unconditionally would repair a generator that lost it on the way)
+        if style == 2 {
+            g.state.version = v0;
+        }
+        if style == 3 {
+            g.allow_ext_opcodes = e0;
+            g.allow_buffer_opcodes = b0;
+        }
         match style {
             1 => {
                 // the caller took the output buffer instead of copying it
